@@ -45,6 +45,8 @@ def main(argv=None):
     ctx = core.Ctx(prop, tier, seed, repo)
     try:
         return run_check(ctx, args)
+    except BrokenPipeError:
+        return 1
     except core.MachineryError as e:
         print(f"MACHINERY-ERROR property={prop}: {e}")
         return 2
